@@ -59,6 +59,10 @@ def _all_cases():
                     # the header row itself (physical line 0) is scanned and offends
                     yield {"policy": pol, "route": route, "override": ov,
                            "kind": kind, "bad": [2], "place": 1, "hdr": True}
+                    # the error happens in a 'last() ->' action fired on the file's blank final line
+                    if kind in ("args", "pyexc"):
+                        yield {"policy": pol, "route": route, "override": ov,
+                               "kind": kind, "bad": [], "place": 1, "hdr": False, "lastblank": True}
                     # a later component of the offending line stops the run: the error is still handled
                     yield {"policy": pol, "route": route, "override": ov,
                            "kind": kind, "bad": [1, 3], "place": 0, "hdr": False, "stopper": True}
@@ -81,6 +85,10 @@ def run_case(case, sb):
     comp, good, badv = KINDS[case["kind"]]
     bad = case["bad"]
     records = [["id", "v"]] + [[f"d{i}", badv if i in bad else good] for i in range(5)]
+    lastblank = case.get("lastblank", False)
+    if lastblank:
+        records.append([])
+        comp = 'last.nocontrib() -> @z = add("x", 1)' if case["kind"] == "args" else 'last.nocontrib() -> @z = mod(7, 0)' 
     pol = case["policy"]
     if case["route"] == "ini":
         sb.write_config(pol)
@@ -103,6 +111,13 @@ def run_case(case, sb):
     if case.get("stopper"):
         # stop() on the first offending line ends the run there whatever the policy says
         exp = errpolicy.expect(pol, ov, [bad[0] + 1], list(range(1, bad[0] + 2)))
+    if lastblank:
+        # all five data lines are fine; the error is raised on the blank final line (6), where only
+        # last() components run (no 'tr' push there) and no line is returned
+        exp = errpolicy.expect(pol, ov, [6], list(range(1, 7)))
+        exp["lines_run"] = [1, 2, 3, 4, 5]
+        exp["returned_must"] = [1, 2, 3, 4, 5]
+        exp["returned_must_not"] = []
     labels = [f"kind:{case['kind']}", f"route:{case['route']}", f"override:{ov}",
               "policy:" + "+".join(pol)] if False else [f"kind:{case['kind']}", f"route:{case['route']}", f"override:{ov}"]
     labels += ["flag:" + f for f in pol]
